@@ -111,7 +111,8 @@ func runFakeOcc(port int, logPath, beh, fifo string) int {
 	}
 	lis, err := net.Listen("tcp", fmt.Sprintf("127.0.0.1:%d", port))
 	if err != nil {
-		fmt.Fprintln(os.Stderr, "fakeocc: listen:", err)
+		// harness trouble (port taken), never an observation about the executor
+		lg.emit(map[string]interface{}{"ev": "HarnessError", "what": "fakeocc cannot listen: " + err.Error()})
 		return 98
 	}
 	g := grpc.NewServer()
